@@ -67,23 +67,23 @@ def cursor_oracle(full, ops):
     return outs
 
 
-def check_rle(rep, tier, rng, drv, run):
+def check_rle(rep, tier, rng, drv, run, parts=("rt", "ops")):
     import rle_ref
     lines, meta = [], []
     # (1) bounded-exhaustive round trips
-    ex = [(1, [0, 1], 12 if tier == "quick" else 16), (2, [0, 1, 2], 8 if tier == "quick" else 10)]
+    ex = [(1, [0, 1], 12 if tier == "quick" else 16), (2, [0, 1, 2], 8 if tier == "quick" else 10)] if "rt" in parts else []
     for w, alpha, L in ex:
         for vs in exhaustive(alpha, L):
             lines.append("rle_rt %d %s" % (w, " ".join(map(str, vs)))); meta.append(("rt", w, vs))
     n_ex = len(lines)
     # (2) structured round trips, all widths
-    nstruct = 4000 if tier == "quick" else 60000
+    nstruct = (4000 if tier == "quick" else 60000) if "rt" in parts else 0
     for i in range(nstruct):
         w = rng.randrange(0, 33) if i % 3 else rng.choice([0, 1, 2, 3, 7, 8, 9, 15, 16, 17, 24, 31, 32])
         vs = gen_structured(rng, w)
         lines.append("rle_rt %d %s" % (w, " ".join(map(str, vs)))); meta.append(("rt", w, vs))
     # long runs (run length needing 2-3 varint bytes)
-    for n in (63, 64, 65, 8191, 8192, 8193, 70000):
+    for n in ((63, 64, 65, 8191, 8192, 8193, 70000) if "rt" in parts else ()):
         for w in (0, 1, 5, 8, 12):
             vs = [1 % (1 << w) if w else 0] * 3 + [((1 << w) - 1)] * n + [0]
             lines.append("rle_rt %d %s" % (w, " ".join(map(str, vs)))); meta.append(("rt", w, vs))
@@ -142,7 +142,8 @@ def check_rle(rep, tier, rng, drv, run):
             dist["ops"] += 1
     dist["rt_structured"] -= n_ex
     rep.cov.setdefault("input_distribution", {}).update(dist)
-    rep.sample({"op": "rle_rt", "case": lines[n_ex + 5][:200]})
+    if "rt" in parts:
+        rep.sample({"op": "rle_rt", "case": lines[n_ex + 5][:200]})
     rep.sample({"op": "rle_ops", "case": lines[-1][:200]})
 
 
